@@ -68,8 +68,8 @@ def librt_path(repo: str = REPO) -> str:
             return build_dir
         if os.path.exists(build_dir):
             shutil.rmtree(build_dir)
-        os.makedirs(os.path.join(build_dir, "librt"))
-        open(os.path.join(build_dir, "librt", "__init__.py"), "w").close()
+        os.makedirs(os.path.join(build_dir, "librt"))   # namespace package portion: no __init__.py, so the
+        # other librt.* modules still come from site-packages
         with open(os.path.join(build_dir, "setup.py"), "w") as f:
             f.write(SETUP.format(lib_rt=lib_rt, build_dir=build_dir, runtime=runtime))
         try:
